@@ -7,6 +7,7 @@ import (
 	"context"
 	"fmt"
 	"net"
+	"os"
 	"strings"
 	"sync"
 	"sync/atomic"
@@ -218,6 +219,9 @@ func NewBed(cfg BedConfig) (*Bed, error) {
 		Peers:             cfg.Peers,
 		IdempotentGraph:   cfg.IdempotentGraph,
 		PreparedCache:     cfg.PreparedCache,
+	}
+	if pc.Logger == nil && os.Getenv("VERIF_PROXY_DEBUG") != "" {
+		pc.Logger, _ = zap.NewDevelopment()
 	}
 	b.Proxy = proxy.NewProxy(ctx, pc)
 	bedMu.Lock()
